@@ -11,7 +11,7 @@ import z3
 from . import core
 from .smt import (
     B, CLASSES, CLASS_FIELDS, CONTRACTS, Contract, EngineError, FIELD_TYPES, Heap, I, PREDICATES, S, SV,
-    Schema, SeqV, VBool, VC, VInt, VNone, VRef, VStr, Val, bval, cls_of, fresh, is_bool, is_int,
+    PSeq, Schema, SeqV, VBool, VC, VInt, VNone, VRef, VStr, Val, bval, cls_of, fresh, is_bool, is_int,
     is_none, is_ref, is_str, ival, lookup_field_type, mk_bool, mk_int, mk_none, mk_py, mk_ref,
     mk_seq, mk_str, mk_tuple, parse_ty, rval, sval,
 )
@@ -45,6 +45,8 @@ class State:
         self.spec = False
         self.ctx: List[Any] = []  # temporary hypotheses while evaluating a guarded sub-expression
         self.ghostvals: Dict[str, Any] = {}
+        self.events: List[Any] = []  # heap snapshots (L, fields, A): everything stored then is allocated then
+        self.loads: Dict[Any, Any] = {}  # heap cells read on this path
 
     def clone(self) -> "State":
         s = State.__new__(State)
@@ -59,7 +61,18 @@ class State:
         s.spec = self.spec
         s.ctx = list(self.ctx)
         s.ghostvals = dict(self.ghostvals)
+        s.events = list(self.events)
+        s.loads = dict(self.loads)
         return s
+
+    def snap(self):
+        self.events.append((self.heap.LA, dict(self.heap.fields), self.heap.A))
+
+    def ld_elem(self, o, k):
+        self.loads[("L", o.get_id(), k.get_id())] = ("L", None, o, k)
+
+    def ld_field(self, f, o):
+        self.loads[("F", f, o.get_id())] = ("F", f, o, None)
 
     def reg(self, t):
         if t is not None and z3.is_expr(t) and t.sort() == I:
@@ -87,6 +100,28 @@ def has_effect_call(node: ast.AST) -> bool:
         if isinstance(n, ast.NamedExpr):
             return True
     return False
+
+
+def wf_instances(st) -> List[Any]:
+    """Instances of heap well-formedness: whatever reference is stored in heap snapshot e is allocated in e."""
+    out = []
+    for (L, fields, A) in st.events:
+        for (kind, f, o, k) in st.loads.values():
+            if kind == "L":
+                t = L[o][k]
+            else:
+                arr = fields.get(f)
+                if arr is None:
+                    # untouched at that time: still the initial array of this field
+                    arr = z3.Const(f"H!{f}!0", z3.ArraySort(I, Val))
+                t = arr[o]
+            out.append(z3.Implies(is_ref(t), rval(t) < A))
+    return out
+
+
+def smt_ArrV():
+    from .smt import ArrV
+    return ArrV
 
 
 class Verifier:
@@ -160,7 +195,7 @@ class Verifier:
         if z3.is_true(z3.simplify(goal)) and False:
             return
         cex = {k: v.v for k, v in st.locals.items() if v.v is not None}
-        hyps = list(st.pc) + list(st.ctx)
+        hyps = list(st.pc) + list(st.ctx) + wf_instances(st)
         self.vcs.append(VC(name, hyps, list(st.schemas), list(st.idx.values()), goal, kind, self.con.name,
                            getattr(node, "lineno", None), cex))
 
@@ -209,7 +244,9 @@ class Verifier:
         alloc = z3.And(r >= 0, r < st.heap.A)
         if k == "obj":
             return z3.And(is_ref(term), alloc, CLASSES.inst(r, ty[1]))
-        if k in ("list", "dict", "tuple"):
+        if k in ("list", "tuple"):
+            return z3.And(is_ref(term), alloc, cls_of(r) == CLASSES.ids[k], st.heap.LN[r] >= 0)
+        if k == "dict":
             return z3.And(is_ref(term), alloc, cls_of(r) == CLASSES.ids[k])
         if k == "callable":
             return z3.And(is_ref(term), alloc)
@@ -230,14 +267,14 @@ class Verifier:
         if v.kind == "tuple":
             return z3.BoolVal(len(v.items) > 0)
         if v.kind == "seq":
-            return z3.Length(v.items) > 0
+            return v.items.n > 0
         if v.kind == "closure":
             return z3.BoolVal(True)
         t = v.v
         ty = v.ty
         if v.kind == "ref" and ty is not None:
             if ty[0] in ("list", "tuple"):
-                return z3.Length(st.heap.L[rval(t)]) > 0
+                return st.heap.LN[rval(t)] > 0
             if ty[0] == "obj":
                 return z3.BoolVal(True)
             if ty[0] == "dict":
@@ -253,7 +290,7 @@ class Verifier:
                   z3.If(is_int(t), ival(t) != 0,
                         z3.If(is_str(t), z3.Length(sval(t)) > 0,
                               z3.If(z3.Or(cls_of(r) == CLASSES.ids["list"], cls_of(r) == CLASSES.ids["tuple"]),
-                                    z3.Length(st.heap.L[r]) > 0, True)))))
+                                    st.heap.LN[r] > 0, True)))))
 
     @staticmethod
     def _kind_of(ty):
@@ -267,12 +304,10 @@ class Verifier:
         """Val term of a value (boxes python-side tuples/py constants)."""
         if v.kind == "tuple":
             r = self.alloc(st, "tuple")
-            seq = z3.Empty(SeqV)
+            seq = PSeq.empty()
             for it in v.items:
-                seq = z3.Concat(seq, z3.Unit(self.to_val(st, it)))
-            if not v.items:
-                seq = z3.Empty(SeqV)
-            st.heap.L = z3.Store(st.heap.L, r, seq)
+                seq = seq.append(self.to_val(st, it))
+            st.heap.set_lseq(r, seq)
             return VRef(r)
         if v.kind == "py":
             return self.py_const(st, v.py)
@@ -315,6 +350,7 @@ class Verifier:
         return mk_py(obj)
 
     def alloc(self, st: State, cls: str):
+        st.snap()
         r = st.heap.A
         st.regref(r)
         a2 = fresh("A", I)
@@ -391,15 +427,15 @@ class Verifier:
     def ev_List(self, node, st):
         items = [self.ev(e, st) for e in node.elts]
         if st.spec:
-            seq = z3.Empty(SeqV)
+            seq = PSeq.empty()
             for it in items:
-                seq = z3.Concat(seq, z3.Unit(self.to_val(st, it))) if True else seq
+                seq = seq.append(self.to_val(st, it))
             return mk_seq(seq)
         r = self.alloc(st, "list")
-        seq = z3.Empty(SeqV)
+        seq = PSeq.empty()
         for it in items:
-            seq = z3.Concat(seq, z3.Unit(self.to_val(st, it)))
-        st.heap.L = z3.Store(st.heap.L, r, seq)
+            seq = seq.append(self.to_val(st, it))
+        st.heap.set_lseq(r, seq)
         ety = items[0].ty if items and all(i.ty == items[0].ty for i in items) else None
         return mk_ref(r, ("list", ety or ("any",)))
 
@@ -484,7 +520,11 @@ class Verifier:
                 b = self.ev(nxt, st)
             finally:
                 st.ctx.pop()
-            cur = self.merge(st, go_on, b, cur)
+            keep = cur
+            if not is_and and cur.ty is not None and cur.ty[0] == "opt":
+                # `x or y` yields x only when x is truthy, hence not None
+                keep = SV(cur.v, self._kind_of(cur.ty[1]), cur.ty[1])
+            cur = self.merge(st, go_on, b, keep)
         return cur
 
     def _decide_key(self, st, key, cond) -> bool:
@@ -518,7 +558,7 @@ class Verifier:
         op = node.op
         if a.kind == "seq" or b.kind == "seq":
             if isinstance(op, ast.Add):
-                return mk_seq(z3.Concat(self.as_seq(st, a), self.as_seq(st, b)))
+                return mk_seq(self.seq_concat(st, self.as_seq(st, a), self.as_seq(st, b)))
             raise EngineError("seq op")
         if isinstance(op, ast.Add) and (a.kind == "str" or b.kind == "str"):
             self.need_kind(st, a, "str", node)
@@ -534,9 +574,10 @@ class Verifier:
             return mk_str(r)
         if isinstance(op, ast.Add) and self._is_listy(a) and self._is_listy(b):
             if st.spec:
-                return mk_seq(z3.Concat(self.as_seq(st, a), self.as_seq(st, b)))
+                return mk_seq(self.seq_concat(st, self.as_seq(st, a), self.as_seq(st, b)))
+            cat = self.seq_concat(st, self.as_seq(st, a), self.as_seq(st, b))
             r = self.alloc(st, "list")
-            st.heap.L = z3.Store(st.heap.L, r, z3.Concat(self.as_seq(st, a), self.as_seq(st, b)))
+            st.heap.set_lseq(r, cat)
             return mk_ref(r, a.ty if a.ty == b.ty else ("list", ("any",)))
         self.need_kind(st, a, "int", node)
         self.need_kind(st, b, "int", node)
@@ -553,17 +594,41 @@ class Verifier:
     def _is_listy(v: SV):
         return v.kind == "ref" and v.ty is not None and v.ty[0] in ("list",)
 
-    def as_seq(self, st, v: SV):
+    def as_seq(self, st, v: SV) -> PSeq:
         if v.kind == "seq":
             return v.items
         if v.kind == "tuple":
-            seq = z3.Empty(SeqV)
+            seq = PSeq.empty()
             for it in v.items:
-                seq = z3.Concat(seq, z3.Unit(self.to_val(st, it)))
+                seq = seq.append(self.to_val(st, it))
             return seq
         if v.kind == "ref" or (st.spec and v.kind is None):
-            return st.heap.L[st.regref(rval(v.v))]
+            return st.heap.lseq(st.regref(rval(v.v)))
         raise EngineError(f"not a sequence: {v}")
+
+    def seq_concat(self, st, a: PSeq, b: PSeq) -> PSeq:
+        sa, sb = z3.simplify(a.n), z3.simplify(b.n)
+        if z3.is_int_value(sb) and sb.as_long() <= 4 and z3.is_int_value(sa) is False or (z3.is_int_value(sb) and sb.as_long() <= 4):
+            out = a
+            for k in range(sb.as_long()):
+                out = out.append(b.arr[k])
+            return out
+        c = fresh("cat", smt_ArrV())
+        st.reg(a.n)
+        st.pc.append(z3.And(a.n >= 0, b.n >= 0))
+        st.schemas.append(Schema(lambda k, a=a, c=c: z3.Implies(z3.And(k >= 0, k < a.n), c[k] == a.arr[k]), "concat-left"))
+        st.schemas.append(Schema(lambda k, a=a, b=b, c=c: z3.Implies(z3.And(k >= a.n, k < a.n + b.n), c[k] == b.arr[k - a.n]), "concat-right"))
+        return PSeq(c, a.n + b.n)
+
+    def seq_slice(self, st, a: PSeq, lo, ln) -> PSeq:
+        slo = z3.simplify(lo)
+        if z3.is_int_value(slo) and slo.as_long() == 0:
+            return PSeq(a.arr, ln)  # a prefix: same elements, shorter length
+        c = fresh("slice", smt_ArrV())
+        st.reg(lo)
+        st.schemas.append(Schema(lambda k, a=a, c=c, lo=lo, ln=ln: z3.Implies(z3.And(k >= 0, k < ln), c[k] == a.arr[lo + k]), "slice"))
+        st.schemas.append(Schema(lambda k, a=a, c=c, lo=lo, ln=ln: z3.Implies(z3.And(k >= lo, k < lo + ln), c[k - lo] == a.arr[k]), "slice'"))
+        return PSeq(c, ln)
 
     # ---- comparisons
     def ev_Compare(self, node, st):
@@ -595,7 +660,7 @@ class Verifier:
                 return z3.BoolVal(a.py is b.py if identity else a.py == b.py)
             return self.to_val(st, a) == self.to_val(st, b)
         if a.kind == "seq" or b.kind == "seq":
-            return self.as_seq(st, a) == self.as_seq(st, b)
+            raise EngineError("equality of spec sequences: state it with forall")
         if a.kind == "tuple" or b.kind == "tuple":
             if a.kind == b.kind and len(a.items) == len(b.items):
                 return z3.And([self.equal(st, x, y, identity) for x, y in zip(a.items, b.items)] or [z3.BoolVal(True)])
@@ -630,13 +695,12 @@ class Verifier:
             self.need_kind(st, a, "str", node)
             return z3.Contains(sval(b.v), sval(a.v))
         if b.kind == "seq":
-            return z3.Contains(b.items, z3.Unit(self.to_val(st, a)))
+            raise EngineError("`in` on a spec sequence")
         if b.kind == "ref" and b.ty and b.ty[0] == "dict":
             self.need_kind(st, a, "str", node)
             return st.heap.DK[st.regref(rval(b.v))][sval(a.v)]
         if b.kind == "ref" and b.ty and b.ty[0] == "list":
-            if a.kind in ("str", "int", "bool", "none"):
-                return z3.Contains(st.heap.L[rval(b.v)], z3.Unit(a.v))
+            raise EngineError("`in` on a list")
         raise EngineError(f"`in` on {b} at line {getattr(node, 'lineno', '?')}")
 
     # ---- attributes
@@ -741,6 +805,7 @@ class Verifier:
     def load_field(self, st, obj: SV, attr: str, cname: Optional[str], node) -> SV:
         r = st.regref(rval(obj.v))
         t = st.heap.field(attr)[r]
+        st.ld_field(attr, r)
         ty = lookup_field_type(cname, attr) if cname else None
         if ty is None and cname is None:
             ty = None
@@ -789,7 +854,12 @@ class Verifier:
             i = ival(idx.v)
             st.reg(i)
             ety = base.ty[1] if base.ty and len(base.ty) > 1 else None
-            return SV(base.items[self.norm_index(i, z3.Length(base.items))], self._kind_of(ety), ety)
+            i2 = self.norm_index(i, base.items.n)
+            t = base.items.at(i2)
+            if base.py is not None:
+                st.ld_elem(base.py, i2)
+            st.pc.append(z3.Implies(is_ref(t), rval(t) < st.heap.A))
+            return SV(t, self._kind_of(ety), ety)
         if base.kind == "ref" and base.ty and base.ty[0] == "dict":
             self.need_kind(st, idx, "str", node)
             r = st.regref(rval(base.v))
@@ -804,8 +874,8 @@ class Verifier:
                 raise EngineError(f"subscript of untyped object at line {node.lineno}")
             self.need_kind(st, idx, "int", node)
             r = st.regref(rval(base.v))
-            seq = st.heap.L[r]
-            n = z3.Length(seq)
+            seq = st.heap.lseq(r)
+            n = seq.n
             i2 = self.norm_index(ival(idx.v), n)
             if not st.spec:
                 self.oblige(st, z3.And(i2 >= 0, i2 < n), "rte-IndexError", node)
@@ -816,8 +886,10 @@ class Verifier:
                 ety = base.ty[1]
             elif base.ty and base.ty[0] == "tuple" and z3.is_int_value(z3.simplify(i2)):
                 ety = base.ty[1][z3.simplify(i2).as_long()]
-            t = seq[i2]
+            t = seq.at(i2)
+            st.ld_elem(r, i2)
             if st.spec:
+                st.pc.append(z3.Implies(is_ref(t), rval(t) < st.heap.A))
                 return SV(t, self._kind_of(ety), ety)
             v = self.assume_type(st, t, ety)
             st.assume(z3.Implies(is_ref(t), rval(t) < st.heap.A))
@@ -836,9 +908,10 @@ class Verifier:
             raise EngineError("slice step")
         if base.kind == "str":
             seq = sval(base.v)
+            n = z3.Length(seq)
         else:
             seq = self.as_seq(st, base)
-        n = z3.Length(seq)
+            n = seq.n
 
         def clamp(x):
             return z3.If(x < 0, 0, z3.If(x > n, n, x))
@@ -854,11 +927,11 @@ class Verifier:
             self.need_kind(st, v, "int", node)
             hi = clamp(self.norm_index(ival(v.v), n))
         ln = z3.If(hi > lo, hi - lo, 0)
-        sub = z3.Extract(seq, lo, ln)
         if base.kind == "str":
-            return mk_str(sub)
+            return mk_str(z3.Extract(seq, lo, ln))
+        sub = self.seq_slice(st, seq, lo, ln)
         if st.spec or base.kind == "seq":
             return mk_seq(sub, base.ty[1] if base.ty and len(base.ty) > 1 else None)
         r = self.alloc(st, "list")
-        st.heap.L = z3.Store(st.heap.L, r, sub)
+        st.heap.set_lseq(r, sub)
         return mk_ref(r, base.ty)
